@@ -48,6 +48,31 @@ def seeds_table():
     return "\n".join(rows)
 
 
+def refactors_table():
+    det = {}
+    p = os.path.join(VERIF, "refactors", "sweep.json")
+    if os.path.isfile(p):
+        det = json.load(open(p))
+    rows = ["| refactor | property | what was restructured (by an independent sub-agent; behaviour-preserving) | outcome of the property's check |", "|---|---|---|---|"]
+    for d in sorted(glob.glob(os.path.join(VERIF, "refactors", "C*"))):
+        rid = os.path.basename(d)
+        mp = os.path.join(d, "meta.json")
+        if not os.path.isfile(mp):
+            continue
+        m = json.load(open(mp))
+        r = det.get(rid)
+        if r is None:
+            out = "not run"
+        elif r["exit"] == 0:
+            out = "silent"
+        elif r["exit"] == 2:
+            out = "exit 2 (declared limitation): " + esc("; ".join(r.get("errors", [])))[:200]
+        else:
+            out = "FALSE ALARM: " + esc("; ".join(r.get("rules", [])[:2]))[:200]
+        rows.append(f"| {rid} | {m.get('property')} | {esc(m.get('summary', ''))[:300]} | {out} |")
+    return "\n".join(rows)
+
+
 def checks_table():
     rows = ["| property | rules | obligations | functions | mutants (detected/registered) | silent variants | known findings printed |", "|---|---|---|---|---|---|---|"]
     for p in sorted(glob.glob(os.path.join(VERIF, "evidence", "C*.json"))):
@@ -72,7 +97,7 @@ def importlib_mutants(pid):
 def main():
     path = os.path.join(VERIF, "DESIGN.md")
     s = open(path).read()
-    for name, fn in (("FINDINGS", findings_table), ("SEEDS", seeds_table), ("CHECKS", checks_table)):
+    for name, fn in (("FINDINGS", findings_table), ("SEEDS", seeds_table), ("CHECKS", checks_table), ("REFACTORS", refactors_table)):
         b, e = f"<!-- BEGIN:{name} -->", f"<!-- END:{name} -->"
         if b in s and e in s:
             s = s[: s.index(b) + len(b)] + "\n" + fn() + "\n" + s[s.index(e):]
